@@ -77,6 +77,32 @@ class Sym:
         return '<%s>' % self.key
 
 
+class Alias:
+    """a local name bound to the same list / dict object as another variable
+    (`bucket = executable_tasks`): reads and mutations go to the target"""
+    __slots__ = ('key',)
+
+    def __init__(self, key):
+        self.key = key
+
+    def __eq__(self, other):
+        return isinstance(other, Alias) and other.key == self.key
+
+    def __hash__(self):
+        return hash(('Alias', self.key))
+
+    def __repr__(self):
+        return '&%s' % self.key
+
+
+def deref(env, k):
+    n = 0
+    while k is not None and isinstance(env.get(k), Alias) and n < 5:
+        k = env[k].key
+        n += 1
+    return k
+
+
 def unsym(v):
     return UNK if isinstance(v, Sym) else v
 
@@ -109,7 +135,16 @@ def _key_of(e):
 
 
 _BUILTINS = {'int': int, 'str': str, 'bool': bool, 'float': float, 'len': len,
-             'list': list, 'dict': dict, 'tuple': tuple, 'repr': repr}
+             'list': list, 'dict': dict, 'tuple': tuple, 'repr': repr,
+             'range': lambda *a: list(range(*a)), 'sorted': sorted,
+             'min': min, 'max': max, 'abs': abs,
+             'reversed': lambda x: list(reversed(x)),
+             'enumerate': lambda x, start=0: [tuple(t) for t in
+                                              enumerate(x, start)]}
+_TYPES = {'list': list, 'dict': dict, 'str': str, 'int': int, 'tuple': tuple,
+          'float': float, 'bool': bool}
+MAX_UNROLL = 64
+MAX_CALLEE_STMTS = 80
 
 
 # ------------------------------------------------------------------------------
@@ -142,6 +177,7 @@ class Interp:
         self._mw     = {}
         self.unresolved = 0
         self.symbolic = symbolic
+        self._evdepth = 0
         self._argonly = {}
 
     # --------------------------------------------------------------------------
@@ -213,6 +249,8 @@ class Interp:
         k = _key_of(e)
         if k is not None:
             if k in env:
+                if isinstance(env[k], Alias):
+                    return env.get(deref(env, k), UNK)
                 return env[k]
             if k in self.inputs:
                 return self.inputs[k]
@@ -329,6 +367,28 @@ class Interp:
                 return UNK
         if isinstance(e, ast.Call):
             return self._call(f, e, env)
+        if isinstance(e, (ast.ListComp, ast.GeneratorExp)) and \
+                len(e.generators) == 1:
+            gen = e.generators[0]
+            seq = self.ev(f, gen.iter, env)
+            if isinstance(seq, dict):
+                seq = list(seq)
+            if not isinstance(seq, (list, tuple)) or len(seq) > MAX_UNROLL \
+                    or any(x is UNK for x in seq):
+                return UNK
+            out = []
+            for x in seq:
+                e2 = dict(env)
+                self.assign(f, gen.target, x, e2)
+                keep = True
+                for cond in gen.ifs:
+                    t = truth(self.ev(f, cond, e2))
+                    if t is None:
+                        return UNK
+                    keep = keep and t
+                if keep:
+                    out.append(self.ev(f, e.elt, e2))
+            return out
         return UNK
 
     @staticmethod
@@ -389,6 +449,21 @@ class Interp:
 
     def _call(self, f, c, env):
         fn = c.func
+        if isinstance(fn, ast.Attribute) and fn.attr in ('setdefault', 'pop') \
+                and c.args and not c.keywords and len(c.args) <= 2:
+            base = self.ev(f, fn.value, env)
+            kv = self.ev(f, c.args[0], env)
+            if isinstance(base, dict) and kv is not UNK:
+                dflt = self.ev(f, c.args[1], env) if len(c.args) == 2 \
+                    else None
+                try:
+                    if fn.attr == 'pop' and len(c.args) == 1 and \
+                            kv not in base:
+                        return UNK
+                    return base.get(kv, dflt)
+                except TypeError:
+                    return UNK
+            return UNK
         if isinstance(fn, ast.Attribute) and fn.attr == 'get' and c.args \
                 and not c.keywords and len(c.args) <= 2:
             kv = self.ev(f, c.args[0], env)
@@ -423,7 +498,96 @@ class Interp:
             base = self.ev(f, fn.value, env)
             if isinstance(base, str):
                 return getattr(base, fn.attr)()
+        if isinstance(fn, ast.Attribute) and fn.attr in ('items', 'keys',
+                                                         'values') \
+                and not c.args and not c.keywords:
+            base = self.ev(f, fn.value, env)
+            if isinstance(base, dict):
+                if fn.attr == 'items':
+                    return [tuple(kv) for kv in base.items()]
+                return list(getattr(base, fn.attr)())
+        if isinstance(fn, ast.Name) and fn.id == 'isinstance' and \
+                len(c.args) == 2 and isinstance(c.args[1], ast.Name) and \
+                c.args[1].id in _TYPES:
+            v = self.ev(f, c.args[0], env)
+            if v is UNK or isinstance(v, Sym):
+                return UNK
+            return isinstance(v, _TYPES[c.args[1].id])
+        if call_name(c).split('.')[-1] == 'as_list' and len(c.args) == 1 \
+                and not c.keywords:
+            v = self.ev(f, c.args[0], env)
+            if v is UNK or isinstance(v, Sym):
+                return UNK
+            if v is None:
+                return []
+            return list(v) if isinstance(v, (list, tuple)) else [v]
+        # resolved callee of the package: evaluate it on these arguments
+        g = self._callee_any(f, c)
+        if g is not None and self._evdepth < 3:
+            return self._call_value(f, c, g, env)
         return UNK
+
+    def _callee_any(self, f, call):
+        try:
+            g = self.prog.resolve_call(f, call, self.cls if f.cls else None)
+        except Exception:
+            return None
+        if g is None or g.node is f.node:
+            return None
+        n = sum(1 for x in ast.walk(g.node) if isinstance(x, ast.stmt))
+        if n > MAX_CALLEE_STMTS or isinstance(g.node, ast.AsyncFunctionDef):
+            return None
+        if any(isinstance(x, (ast.Yield, ast.YieldFrom))
+               for x in ast.walk(g.node)):
+            return None
+        return g
+
+    def _bind(self, f, call, g, env):
+        """callee environment: self.* / path markers of the caller plus the
+        parameters bound to the evaluated arguments / defaults"""
+        cenv = {k: v for k, v in env.items()
+                if k.startswith('self.') or k in ('@c', '@h')}
+        a = g.node.args
+        pos = [x.arg for x in a.posonlyargs + a.args]
+        if g.cls is not None and pos and pos[0] in ('self', 'cls') and \
+                not any(unparse(d) == 'staticmethod'
+                        for d in g.node.decorator_list):
+            pos = pos[1:]
+        names = pos + [x.arg for x in a.kwonlyargs]
+        dfl = dict(zip(reversed([x.arg for x in a.posonlyargs + a.args]),
+                       reversed(a.defaults)))
+        for x, d in zip(a.kwonlyargs, a.kw_defaults):
+            if d is not None:
+                dfl[x.arg] = d
+        for pn in names:
+            cenv[pn] = self.ev(g, dfl[pn], {}) if pn in dfl else UNK
+        for i, x in enumerate(call.args):
+            if i < len(pos) and not isinstance(x, ast.Starred):
+                cenv[pos[i]] = self.ev(f, x, env)
+        for kw in call.keywords:
+            if kw.arg in names:
+                cenv[kw.arg] = self.ev(f, kw.value, env)
+        if a.vararg:
+            cenv[a.vararg.arg] = UNK
+        if a.kwarg:
+            cenv[a.kwarg.arg] = UNK
+        return cenv
+
+    def _call_value(self, f, call, g, env):
+        """value returned by resolved callee g, if it is the same on every
+        path that is feasible for these arguments"""
+        cenv = self._bind(f, call, g, env)
+        self._evdepth += 1
+        obs, self.observe = self.observe, None
+        try:
+            exits = self.run(g, cenv, depth=0, inlined=True)
+        finally:
+            self._evdepth -= 1
+            self.observe = obs
+        rets = {dict(fe).get('@ret', None) for fe in exits}
+        if len(rets) != 1:
+            return UNK
+        return thaw(list(rets)[0])
 
     # --------------------------------------------------------------------------
     # statements
@@ -451,16 +615,18 @@ class Interp:
                 env[bk] = UNK
             return
         self._kill(env, k, keep_self=False)
-        env[k] = v
-        if k in self.track and stmt is not None:
-            env[k + '@'] = '%s: `%s`' % (f.qual, short(stmt, 60))
         # a constant-key store into a known dict value updates that value
+        # (the dict is the single source of truth for its items)
         if isinstance(target, ast.Subscript):
-            bk = _key_of(target.value)
+            bk = deref(env, _key_of(target.value))
             if bk in env and isinstance(env[bk], dict):
                 d = dict(env[bk])
                 d[target.slice.value] = v
                 env[bk] = d
+                return
+        env[k] = v
+        if k in self.track and stmt is not None:
+            env[k + '@'] = '%s: `%s`' % (f.qual, short(stmt, 60))
 
     @staticmethod
     def _kill(env, k, keep_self=True):
@@ -512,10 +678,20 @@ class Interp:
                 envs = nxt
         out = []
         for env in envs:
+            post = self._arg_mutations(f, a, env)
             if isinstance(a, ast.Assign):
                 v = self.ev(f, a.value, env)
+                env.update(post)
+                post = {}
+                self._dict_mutations(f, a.value, env)
+                ref = self.ref_of(f, a.value, env)
                 for t in a.targets:
-                    self.assign(f, t, v, env, a)
+                    if ref is not None and isinstance(t, ast.Name) and \
+                            t.id != ref:
+                        self._kill(env, t.id, keep_self=False)
+                        env[t.id] = Alias(ref)
+                    else:
+                        self.assign(f, t, v, env, a)
             elif isinstance(a, ast.AnnAssign) and a.value is not None:
                 self.assign(f, a.target, self.ev(f, a.value, env), env, a)
             elif isinstance(a, ast.AugAssign):
@@ -525,52 +701,145 @@ class Interp:
                     k = _key_of(t)
                     if k:
                         self._kill(env, k, keep_self=False)
+                    if isinstance(t, ast.Subscript) and \
+                            isinstance(t.slice, ast.Constant):
+                        bk = _key_of(t.value)
+                        if bk in env and isinstance(env[bk], dict):
+                            d = dict(env[bk])
+                            d.pop(t.slice.value, None)
+                            env[bk] = d
+            elif isinstance(a, ast.Return):
+                env['@ret'] = None if a.value is None else \
+                    self.ev(f, a.value, env)
             elif isinstance(a, ast.Expr) and isinstance(a.value, ast.Call) \
                     and isinstance(a.value.func, ast.Attribute) and \
                     a.value.func.attr in I.MUTATING:
-                k = _key_of(a.value.func.value)
-                if k:
+                c = a.value
+                k = deref(env, _key_of(c.func.value))
+                if k and c.func.attr == 'append' and len(c.args) == 1 and \
+                        isinstance(env.get(k), list) and \
+                        all('@L%d' % h in env for h in node.loops):
+                    # (inside a loop of unknown length the list would grow
+                    # without bound: it becomes unknown instead)
+                    env[k] = list(env[k]) + [self.ev(f, c.args[0], env)]
+                elif k and isinstance(env.get(k), dict) and \
+                        self._dict_mutations(f, c, env):
+                    pass
+                elif k:
                     self._kill(env, k, keep_self=False)
                     env[k] = UNK
+            env.update(post)
             out.append(env)
         return out
 
+    def _arg_mutations(self, f, stmt, env):
+        """dict valued variables passed by name to a resolved callee of the
+        package are passed by reference: {name: dict after the call} when
+        every exit of the callee agrees on it"""
+        post = {}
+        if self._evdepth >= 3 or isinstance(stmt, (ast.FunctionDef,
+                                                   ast.ClassDef)):
+            return post
+        for c in calls_in(stmt):
+            cand = [(i, x.id) for i, x in enumerate(c.args)
+                    if isinstance(x, ast.Name) and
+                    isinstance(env.get(x.id), dict)]
+            if not cand:
+                continue
+            g = self._callee_any(f, c)
+            if g is None:
+                continue
+            a = g.node.args
+            pos = [x.arg for x in a.posonlyargs + a.args]
+            if g.cls is not None and pos and pos[0] in ('self', 'cls'):
+                pos = pos[1:]
+            cenv = self._bind(f, c, g, env)
+            self._evdepth += 1
+            obs, self.observe = self.observe, None
+            try:
+                exits = self.run(g, cenv, depth=0, inlined=True)
+            finally:
+                self._evdepth -= 1
+                self.observe = obs
+            for i, name in cand:
+                if i >= len(pos):
+                    continue
+                finals = {freeze(thaw(dict(fe).get(pos[i], UNK)))
+                          for fe in exits}
+                if len(finals) == 1:
+                    v = thaw(list(finals)[0])
+                    post[name] = v if isinstance(v, dict) else UNK
+                elif finals:
+                    post[name] = UNK
+        return post
+
+    def ref_of(self, f, e, env):
+        """name of the list / dict variable the expression denotes (by
+        reference), or None"""
+        if isinstance(e, ast.Name):
+            k = deref(env, e.id)
+            return k if isinstance(env.get(k), (list, dict)) else None
+        if isinstance(e, ast.IfExp):
+            t = truth(self.ev(f, e.test, env))
+            if t is None:
+                return None
+            return self.ref_of(f, e.body if t else e.orelse, env)
+        return None
+
+    def _dict_mutations(self, f, expr, env):
+        """apply setdefault / pop / update calls on dict valued variables
+        occurring in expr (their value was already computed with get
+        semantics); True if something was applied"""
+        done = False
+        for c in calls_in(expr):
+            if not (isinstance(c.func, ast.Attribute) and
+                    c.func.attr in ('setdefault', 'pop', 'update') and
+                    c.args and not c.keywords):
+                continue
+            k = deref(env, _key_of(c.func.value))
+            if k is None or not isinstance(env.get(k), dict):
+                continue
+            d = dict(env[k])
+            a0 = self.ev(f, c.args[0], env)
+            try:
+                if c.func.attr == 'setdefault' and len(c.args) <= 2 and \
+                        a0 is not UNK:
+                    d.setdefault(a0, self.ev(f, c.args[1], env)
+                                 if len(c.args) == 2 else None)
+                elif c.func.attr == 'pop' and a0 is not UNK:
+                    d.pop(a0, None)
+                elif c.func.attr == 'update' and isinstance(a0, dict) and \
+                        len(c.args) == 1:
+                    d.update(a0)
+                else:
+                    env[k] = UNK
+                    done = True
+                    continue
+            except TypeError:
+                env[k] = UNK
+                done = True
+                continue
+            env[k] = d
+            done = True
+        return done
+
     def _inline(self, f, call, g, env, depth):
-        selfenv = {k: v for k, v in env.items()
-                   if k.startswith('self.') or k.startswith('@')}
         if depth <= 0:
             for k in self.track:
                 env = dict(env)
                 env[k] = UNK
             return [env]
-        cenv = dict(selfenv)
-        params = [p for p in g.params if p != 'self']
-        a = g.node.args
-        pos = [x.arg for x in a.posonlyargs + a.args if x.arg != 'self']
-        dfl = dict(zip(reversed(pos), reversed(a.defaults)))
-        for x, d in zip(a.kwonlyargs, a.kw_defaults):
-            if d is not None:
-                dfl[x.arg] = d
-        for p in params:
-            cenv[p] = self.ev(g, dfl[p], {}) if p in dfl else UNK
-        for i, x in enumerate(call.args):
-            if i < len(pos) and not isinstance(x, ast.Starred):
-                cenv[pos[i]] = self.ev(f, x, env)
-        for kw in call.keywords:
-            if kw.arg in params:
-                cenv[kw.arg] = self.ev(f, kw.value, env)
+        cenv = self._bind(f, call, g, env)
         exits = self.run(g, cenv, depth=depth - 1, inlined=True)
         out = []
         for fe in exits:
             ce = dict(fe)
             e2 = {k: v for k, v in env.items()
-                  if not (k.startswith('self.') or k.startswith('@'))}
+                  if not (k.startswith('self.') or k in ('@c', '@h'))}
             e2.update({k: thaw(v) for k, v in ce.items()
-                       if k.startswith('self.') or k.startswith('@')})
+                       if k.startswith('self.') or k in ('@c', '@h')})
             out.append(e2)
-        if not exits:
-            # callee never returns normally on this input: no continuation
-            return []
+        # no exit: the callee never returns normally on this input
         return out
 
     # --------------------------------------------------------------------------
@@ -609,13 +878,35 @@ class Interp:
                     # of the arguments of an inlined call was passed
                     env['@c'] = True
                     fe = self._fz(env)
+            forced = None
+            if node.kind == 'for':
+                lk = '@L%d' % nid
+                if lk in env:
+                    seq, idx = env[lk]
+                else:
+                    seq, idx = self.ev(f, node.ast.iter, env), 0
+                    if isinstance(seq, dict):
+                        seq = list(seq)
+                    if not isinstance(seq, (list, tuple)) or \
+                            len(seq) > MAX_UNROLL:
+                        seq = None
+                if seq is not None:
+                    # concrete iteration over a known sequence
+                    if idx < len(seq):
+                        allowed = 'iter'
+                        forced = seq[idx]
+                        env[lk] = (list(seq), idx + 1)
+                    else:
+                        allowed = 'done'
+                        env.pop(lk, None)
             observed = False
             cache = {}
             for e in g.succ[nid]:
                 if e.label == 'exc':
                     todo.append((e.dst, fe))
                     continue
-                if allowed is not None and e.label in ('T', 'F') and \
+                if allowed is not None and e.label in ('T', 'F', 'iter',
+                                                       'done') and \
                         e.label != allowed:
                     continue
                 if not observed and self.observe is not None:
@@ -623,10 +914,18 @@ class Interp:
                     self.observe(f, node, env)
                 ck = e.label if node.kind == 'for' else ''
                 if ck not in cache:
-                    cache[ck] = [self._fz(x) for x in
-                                 self.effects(f, node, e, env, depth)]
-                for fe2 in cache[ck]:
-                    todo.append((e.dst, fe2))
+                    outs = self.effects(f, node, e, env, depth)
+                    if forced is not None and e.label == 'iter':
+                        for x in outs:
+                            self.assign(f, node.ast.target, forced, x)
+                    cache[ck] = outs
+                for x in cache[ck]:
+                    dn = g.nodes[e.dst]
+                    if dn.kind == 'for' and not e.back and \
+                            '@L%d' % e.dst in x:
+                        x = dict(x)
+                        del x['@L%d' % e.dst]   # stale state of a left loop
+                    todo.append((e.dst, self._fz(x)))
         return exits
 
     @staticmethod
@@ -767,8 +1066,9 @@ def r14_1(prog, rep, rid='R14.1'):
               'highest non-final state of the table' % pub, loc=loc,
               history='agent comes up: launcher states that arrive later '
               'are applied after PMGR_ACTIVE or PMGR_ACTIVE is discarded')
-    _r14_1_inv(prog, rep, rid, m, tab, n, loc)
-    _r14_1_progress(prog, rep, rid)
+    inv = _r14_1_inv(prog, rep, rid, m, tab, n, loc)
+    if not _progress_by_value(prog, rep, rid, tab, inv, final):
+        _r14_1_progress(prog, rep, rid)
 
 
 def _r14_1_inv(prog, rep, rid, m, tab, n, loc):
@@ -808,6 +1108,61 @@ def _r14_1_inv(prog, rep, rid, m, tab, n, loc):
               '_pilot_state_values on the non-final values 0..%d' % (n - 1),
               loc=loc, history='a notification that skips states replays '
               'the wrong intermediate states')
+    return inv
+
+
+def _progress_by_value(prog, rep, rid, tab, inv, final):
+    """evaluate _pilot_state_progress for every (current, target) pair of the
+    table and compare the passed list with the specification; False if the
+    function cannot be evaluated (the structural check decides then)"""
+    f = prog.function(STATES, '_pilot_state_progress')
+    params = f.params
+    if len(params) != 3:
+        return False
+    rep.saw(f)
+    ip = Interp(prog, None, inputs={'_pilot_state_inv': inv},
+                max_states=200000)
+    verdict = {}
+    for cur in tab:
+        bad = None
+        for tgt in tab:
+            exits = ip.run(f, {params[0]: 'pilot.0000', params[1]: cur,
+                               params[2]: tgt})
+            rets = {fe_ret for fe_ret in
+                    (dict(fe).get('@ret', UNK) for fe in exits)}
+            progress = tab[cur] < tab[tgt]
+            want = [] if not progress else \
+                [inv.get(i, '<no state with value %d>' % i)
+                 for i in range(tab[cur] + 1, tab[tgt])] + [tgt]
+            if not rets:
+                # raises: accepted only for contradicting final states
+                if not (cur in final and tgt in final and cur != tgt):
+                    bad = bad or (tgt, 'raises', want)
+                continue
+            for r in rets:
+                r = thaw(r)
+                if r is UNK or not isinstance(r, (list, tuple)) or \
+                        len(r) != 2 or not isinstance(r[1], list) or \
+                        any(x is UNK or isinstance(x, Sym) for x in r[1]):
+                    return False
+                if r[1] != want or (progress and r[0] != tgt):
+                    bad = bad or (tgt, 'returns %r' % (tuple(r),), want)
+        verdict[cur] = bad
+    rep.stat('interp_states', ip.states)
+    for cur in tab:
+        bad = verdict[cur]
+        rep.check(bad is None, rid, f, 'progress from %s: passed list is '
+                  'empty unless the target is ahead, and then holds exactly '
+                  'the states in (current, target]' % cur,
+                  construct='progress:%s' % cur,
+                  message='%s(pid, %r, %r) %s; the passed list must be %r: '
+                  'callbacks see a state that is not ahead of the current '
+                  'one, a state twice, or miss one'
+                  % ((f.qual, cur, bad[0], bad[1], bad[2]) if bad else
+                     (f.qual, cur, None, '', [])), loc=f.loc(),
+                  history='pilot in %s receives a notification for %s'
+                  % (cur, bad[0] if bad else ''))
+    return True
 
 
 def _r14_1_progress(prog, rep, rid):
@@ -1038,6 +1393,25 @@ def _defs(f, name):
     return out
 
 
+def resolve_aliases(f, expr, depth=0):
+    """text of expr with local names that have a single definition which is
+    a pure access path (cached `x = self.a[b]`) replaced by that path"""
+    class T(ast.NodeTransformer):
+        def visit_Name(self, n):
+            if isinstance(n.ctx, ast.Load) and n.id not in f.params and \
+                    depth < 4:
+                ds = _defs(f, n.id)
+                if len(ds) == 1 and ds[0][2] is None and \
+                        I.is_path(ds[0][1]) and \
+                        root_name(ds[0][1]) == 'self' and \
+                        not isinstance(ds[0][1], ast.Name):
+                    return ast.parse(resolve_aliases(f, ds[0][1], depth + 1),
+                                     mode='eval').body
+            return n
+    import copy
+    return unparse(T().visit(copy.deepcopy(expr)))
+
+
 def _r14_2_sites(prog, rep, rid, up, sites):
     g = cfg_of(up)
     smap = I.stmt_node_map(g)
@@ -1056,14 +1430,14 @@ def _r14_2_sites(prog, rep, rid, up, sites):
     def is_cur(name, pidname):
         d = _defs(up, name)
         return len(d) == 1 and d[0][2] is None and \
-            unparse(d[0][1]) == 'self._pilots[%s].state' % pidname
+            resolve_aliases(up, d[0][1]) == 'self._pilots[%s].state' % pidname
 
     def tgt_defs(name):
         return _defs(up, name)
 
     for c in sites:
         node = smap[id(c)]
-        recv = c.func.value
+        recv = ast.parse(resolve_aliases(up, c.func.value), mode='eval').body
         pidname = None
         if isinstance(recv, ast.Subscript) and \
                 unparse(recv.value) == 'self._pilots' and \
